@@ -220,4 +220,70 @@ Section Order.
       - unf; ord_auto s I. }
     all: break_step H; norm_eqb; try (unf; ord_auto s I).
   Qed.
+
+  (* ---- every reachable state ------------------------------------------------------------------ *)
+  Lemma run_ord ls : forall s s', run fx info s ls = Some s' -> OrdInv s -> OrdInv s'.
+  Proof.
+    induction ls as [|l ls IH]; simpl; intros s s' H I.
+    - inversion H; subst; exact I.
+    - destruct (step fx info s l) as [s1|] eqn:E; [|discriminate].
+      eapply IH; [exact H|]. eapply step_ord; eauto.
+  Qed.
+
+  Theorem reachable_ord ls s : run fx info init ls = Some s -> OrdInv s.
+  Proof. intro H. eapply run_ord; [exact H | apply init_ord]. Qed.
+
+  Lemma sub_prefix {A} (a b : list A) : sub a (a ++ b).
+  Proof. induction a; simpl; [apply sub_nil_l | apply sub_keep; assumption]. Qed.
+
+  (* per calling thread, the execution log is in issue order *)
+  Theorem program_order ls s k :
+    run fx info init ls = Some s -> StronglySorted lt (filter (fk k) (log s)).
+  Proof.
+    intro H. pose proof (reachable_ord ls s H) as [_ Hs _ _].
+    eapply sub_sorted; [|apply (Hs k)]. apply sub_filter. unfold pipeline. apply sub_prefix.
+  Qed.
+
+  Lemma sorted_lt_NoDup (l : list nat) : StronglySorted lt l -> NoDup l.
+  Proof.
+    induction 1 as [|x l S IH F]; constructor; [|exact IH].
+    intro Hin. rewrite Forall_forall in F. specialize (F x Hin). lia.
+  Qed.
+
+  Lemma count_filter k x l : fk k x = true -> count_occ Nat.eq_dec (filter (fk k) l) x = count_occ Nat.eq_dec l x.
+  Proof.
+    intro K. induction l as [|y l IH]; simpl; [reflexivity|].
+    destruct (Nat.eq_dec y x) as [E|E].
+    - subst. rewrite K. simpl. destruct (Nat.eq_dec x x); [|congruence]. rewrite IH. reflexivity.
+    - destruct (fk k y); simpl; [destruct (Nat.eq_dec y x); [congruence|]|]; exact IH.
+  Qed.
+
+  (* no request is executed twice *)
+  Theorem executed_once ls s : run fx info init ls = Some s -> NoDup (log s).
+  Proof.
+    intro H. apply (NoDup_count_occ' Nat.eq_dec). intros x Hin.
+    pose proof (program_order ls s (caller (info x)) H) as S.
+    apply sorted_lt_NoDup in S.
+    assert (K : fk (caller (info x)) x = true) by (unfold fk; apply Nat.eqb_refl).
+    rewrite <- (count_filter _ _ _ K).
+    rewrite (NoDup_count_occ' Nat.eq_dec) in S. apply S.
+    apply filter_In. split; assumption.
+  Qed.
+
+  (* two requests of one calling thread: the one issued first is executed first *)
+  Theorem issue_order_respected ls s a b l1 l2 l3 :
+    run fx info init ls = Some s ->
+    caller (info a) = caller (info b) ->
+    log s = l1 ++ a :: l2 ++ b :: l3 -> a < b.
+  Proof.
+    intros H C E. pose proof (program_order ls s (caller (info a)) H) as S.
+    rewrite E in S. rewrite filter_app in S. simpl in S.
+    assert (Ka : fk (caller (info a)) a = true) by (unfold fk; apply Nat.eqb_refl).
+    assert (Kb : fk (caller (info a)) b = true) by (unfold fk; rewrite C; apply Nat.eqb_refl).
+    rewrite Ka in S. rewrite filter_app in S. simpl in S. rewrite Kb in S.
+    assert (S' : StronglySorted lt (a :: filter (fk (caller (info a))) l2 ++ b :: filter (fk (caller (info a))) l3)).
+    { eapply sub_sorted; [|exact S]. clear. induction (filter _ l1); simpl; [apply sub_refl | apply sub_skip; assumption]. }
+    inversion S' as [|? ? _ F]; subst.
+    rewrite Forall_forall in F. apply F. apply in_or_app. right. left. reflexivity.
+  Qed.
 End Order.
